@@ -521,3 +521,101 @@ B('c02-keys-star', 'C02', FUN, "    return list(value.keys())", "    return [*va
 B('c02-keys-comprehension', 'C02', FUN, "    return list(value.keys())", "    return [k for k in value]")
 B('c02-format-entry', 'C02', FUN, "    'len': len,", "    'len': len,\n    'fmt': format,")
 B('c02-groups-tuple', 'C02', FUN, "    return [m.group(0), *m.groups()]", "    return (m.group(0),) + m.groups()")
+
+# =============================================================================== C06
+M('c06-power-left-assoc', 'C06', 'C06.R1', LEX, "    ('right', 'POWER'),", "    ('left', 'POWER'),")
+M('c06-uminus-below-pipe', 'C06', 'C06.R1', LEX, "    ('left', 'PIPE'),\n    ('left', 'DOT'),\n    ('right', 'UNOT'),\n    ('right', 'UMINUS'),", "    ('right', 'UMINUS'),\n    ('left', 'PIPE'),\n    ('left', 'DOT'),\n    ('right', 'UNOT'),")
+M('c06-no-prec-uminus', 'C06', 'C06.R1', RUL, '    """ expression : MINUS expression %prec UMINUS """', '    """ expression : MINUS expression """')
+M('c06-comparisons-left', 'C06', 'C06.R1', LEX, "    ('nonassoc', 'EQ', 'NE', 'GT', 'LT', 'GTE', 'LTE', 'IN', 'NOT'),", "    ('left', 'EQ', 'NE', 'GT', 'LT', 'GTE', 'LTE', 'IN', 'NOT'),")
+M('c06-not-in-prefix-precedence', 'C06', 'C06.R1', edits=[
+  (LEX, "    ('nonassoc', 'EQ', 'NE', 'GT', 'LT', 'GTE', 'LTE', 'IN', 'NOT'),", "    ('nonassoc', 'EQ', 'NE', 'GT', 'LT', 'GTE', 'LTE', 'IN'),"),
+  (LEX, "    ('right', 'UNOT'),", "    ('right', 'NOT'),"),
+  (RUL, '    """ expression : NOT expression %prec UNOT """', '    """ expression : NOT expression """')])
+M('c06-else-has-precedence', 'C06', 'C06.R1', LEX, "    ('left', 'OR'),\n    ('left', 'AND'),", "    ('left', 'ELSE'),\n    ('left', 'OR'),\n    ('left', 'AND'),")
+M('c06-lambda-has-precedence', 'C06', 'C06.R1', LEX, "    ('left', 'OR'),\n    ('left', 'AND'),", "    ('left', 'OR'),\n    ('left', 'AND'),\n    ('left', 'LAMBDA'),")
+M('c06-times-below-plus', 'C06', 'C06.R1', LEX, "    ('left', 'PLUS', 'MINUS'),\n    ('left', 'TIMES', 'DIVIDE'),", "    ('left', 'TIMES', 'DIVIDE'),\n    ('left', 'PLUS', 'MINUS'),")
+M('c06-and-or-same-level', 'C06', 'C06.R1', LEX, "    ('left', 'OR'),\n    ('left', 'AND'),", "    ('left', 'OR', 'AND'),")
+M('c06-binop-operands-swapped', 'C06', 'C06.R4', RUL, "        p[0] = BinOp(p[2], p[1], p[3])", "        p[0] = BinOp(p[2], p[3], p[1])")
+M('c06-notin-wrong-operand', 'C06', 'C06.R4', RUL, "        p[0] = BinOp('not in', p[1], p[4])", "        p[0] = BinOp('not in', p[1], p[3])")
+M('c06-action-reads-beyond', 'C06', 'C06.R4', RUL, "        p[0] = CallOp(name='list', args=p[2])", "        p[0] = CallOp(name='list', args=p[2]) if p[4] else None")
+M('c06-dict-item-ambiguous', 'C06', 'C06.R2', RUL,
+  '    """ dict_item : dict_item COMMA expression COLON expression\n                  | expression COLON expression\n    """\n    if p.slice[1].type == \'dict_item\':\n        p[0] = p[1] + [(p[3], p[5])]',
+  '    """ dict_item : dict_item COMMA dict_item\n                  | expression COLON expression\n    """\n    if p.slice[1].type == \'dict_item\':\n        p[0] = p[1] + p[3]')
+M('c06-new-conflicting-production', 'C06', None, RUL, '    """ expression : LPAREN expression RPAREN"""', '    """ expression : LPAREN expression RPAREN\n                   | LPAREN NAME RPAREN"""')
+M('c06-uminus-on-not-row', 'C06', 'C06.R1', LEX, "    ('right', 'UNOT'),\n    ('right', 'UMINUS'),\n    ('left', 'LBRACKET'),", "    ('left', 'LBRACKET'),\n    ('right', 'UNOT'),\n    ('right', 'UMINUS'),")
+
+B('c06-rename-token', 'C06', edits=[
+  (LEX, "    'PLUS', 'MINUS', 'TIMES', 'POWER', 'DIVIDE',", "    'PLUS', 'MINUS', 'TIMES', 'POW', 'DIVIDE',"),
+  (LEX, "t_POWER = r'\\*\\*'", "t_POW = r'\\*\\*'"),
+  (LEX, "    ('right', 'POWER'),", "    ('right', 'POW'),"),
+  (RUL, "                   | expression POWER expression", "                   | expression POW expression")])
+B('c06-split-binop-function', 'C06', edits=[
+  (RUL, "                   | expression AND expression\n                   | expression OR expression\n    \"\"\"\n    if p.slice[3].type == 'IN':",
+        "                   | expression AND expression\n    \"\"\"\n    if p.slice[3].type == 'IN':"),
+  (RUL, "def p_list_literal(p):", "def p_expression_or(p):\n    \"\"\" expression : expression OR expression \"\"\"\n    p[0] = BinOp(p[2], p[1], p[3])\n\n\ndef p_list_literal(p):")])
+B('c06-conflict-free-production', 'C06', RUL, '    """ expression : NONE """', '    """ expression : NONE\n                   | LBRACE NONE RBRACE """')
+
+
+# =============================================================================== C07
+M('c07-minus-adds', 'C07', 'C07.R1', AST, "            return op1 - op2", "            return op1 + op2")
+M('c07-divide-swapped', 'C07', 'C07.R1', AST, "            return op1 / op2", "            return op2 / op1")
+M('c07-ge-is-gt', 'C07', 'C07.R1', AST, "        elif self.op == '>=':\n            return op1 >= op2", "        elif self.op == '>=':\n            return op1 > op2")
+M('c07-notin-is-in', 'C07', 'C07.R1', AST, "            return op1 not in op2", "            return op1 in op2")
+M('c07-ne-arm-missing', 'C07', 'C07.R1', AST, "        elif self.op == '!=':\n            return op1 != op2\n", "")
+M('c07-unary-minus-identity', 'C07', 'C07.R1', AST, "            return -op1", "            return +op1")
+M('c07-shortop-minus-adds', 'C07', 'C07.R1', AST, "            elif self.op == '-=':\n                state.names[self.name] -= value", "            elif self.op == '-=':\n                state.names[self.name] += value")
+M('c07-setwithop-div-mul', 'C07', 'C07.R1', FUN, "        elif op == '/=':\n            container[key] /= value", "        elif op == '/=':\n            container[key] *= value")
+M('c07-setwithop-arm-missing', 'C07', 'C07.R1', FUN, "        elif op == '-=':\n            container[key] -= value\n", "")
+M('c07-notin-opstring-typo', 'C07', 'C07.R1', RUL, "        p[0] = BinOp('not in', p[1], p[4])", "        p[0] = BinOp('not_in', p[1], p[4])")
+M('c07-lowering-unknown-name', 'C07', 'C07.R2', RUL, "    p[0] = CallOp(name='__delitem__', args=[p[2], p[4]])", "    p[0] = CallOp(name='__del__', args=[p[2], p[4]])")
+M('c07-lowering-arity', 'C07', 'C07.R2', RUL, "    p[0] = CallOp(name='__setitem__', args=[p[1], p[3], p[6]])", "    p[0] = CallOp(name='__setitem__', args=[p[1], p[3]])")
+M('c07-helper-arity', 'C07', 'C07.R2', FUN, "def _del(container: Any, key: Any) -> Any:", "def _del(container: Any) -> Any:\n    key = None")
+M('c07-double-charge', 'C07', 'C07.R3', AST, "        super().eval(state)\n        return self.v", "        super().eval(state)\n        super().eval(state)\n        return self.v")
+M('c07-new-modulo-token-unhandled', 'C07', 'C07.R1', LEX, "t_SHORT_OP = r'[+\\-\\*/]='", "t_SHORT_OP = r'[+\\-\\*/%]='")
+
+B('c07-operator-module', 'C07', edits=[
+  (AST, "import copy\n", "import copy\nimport operator\n"),
+  (AST, "            return op1 - op2", "            return operator.sub(op1, op2)")])
+B('c07-comparison-flipped-spelling', 'C07', AST, "            return op1 > op2", "            return op2 < op1")
+
+# =============================================================================== C15
+NLR = "    if t.value != ';':\n        t.lexer.lineno += 1\n\n    if t.value == ';' or t.lexer.paren_count == 0:\n        return t\n    else:\n        # ignore newlines inside of parens, braces and brackets\n        return None"
+M('c15-tab-not-ignored', 'C15', 'C15.R1', LEX, 't_ignore = " \\t"', 't_ignore = " "')
+M('c15-comment-returns-token', 'C15', 'C15.R1', LEX, '    r""" \\043.* """\n    return None', '    r""" \\043.* """\n    return t')
+M('c15-comment-eats-newline', 'C15', 'C15.R1', LEX, '    r""" \\043.* """', '    r""" \\043.*\\n? """')
+M('c15-newline-inside-brackets-returned', 'C15', 'C15.R1', LEX, "    if t.value == ';' or t.lexer.paren_count == 0:\n        return t\n    else:", "    if t.value == ';' or t.lexer.paren_count <= 1:\n        return t\n    else:")
+M('c15-newline-swallowed-at-top', 'C15', 'C15.R1', LEX, "    if t.value == ';' or t.lexer.paren_count == 0:\n        return t\n    else:", "    if t.value == ';':\n        return t\n    else:")
+M('c15-semicolon-inside-brackets-dropped', 'C15', 'C15.R1', LEX, "    if t.value == ';' or t.lexer.paren_count == 0:\n        return t\n    else:", "    if t.lexer.paren_count == 0:\n        return t\n    else:")
+M('c15-bracket-forgets-count', 'C15', 'C15.R1', LEX, '    r"""\\["""\n    t.lexer.paren_count += 1\n    return t', '    r"""\\["""\n    return t')
+M('c15-closer-counts-up', 'C15', 'C15.R1', LEX, '    r"""}"""\n    t.lexer.paren_count -= 1\n    return t', '    r"""}"""\n    t.lexer.paren_count += 1\n    return t')
+M('c15-no-crlf', 'C15', 'C15.R1', LEX, '    r"""\\r\\n|\\n|;"""', '    r"""\\n|;"""')
+M('c15-group-wraps', 'C15', 'C15.R5', RUL, '    """ expression : LPAREN expression RPAREN"""\n    p[0] = p[2]', '    """ expression : LPAREN expression RPAREN"""\n    p[0] = CodeOp([p[2]])')
+M('c15-pipe-differs-from-dot', 'C15', 'C15.R6', RUL, "    if len_p == 7:\n        p[0] = CallOp(p[3], args=[p[1], *p[5]])", "    if len_p == 7:\n        p[0] = CallOp(p[3], args=[p[1], *p[5]] if p.slice[2].type == 'DOT' else [*p[5], p[1]])")
+M('c15-method-trailing-comma-drops-arg', 'C15', 'C15.R3', RUL, "    elif len_p == 8:\n        p[0] = CallOp(p[3], args=[p[1], *p[5]])", "    elif len_p == 8:\n        p[0] = CallOp(p[3], args=[p[1], *p[5][:-1]])")
+M('c15-dict-item-ambiguous', 'C15', 'C15.R4', RUL,
+  '    """ dict_item : dict_item COMMA expression COLON expression\n                  | expression COLON expression\n    """\n    if p.slice[1].type == \'dict_item\':\n        p[0] = p[1] + [(p[3], p[5])]',
+  '    """ dict_item : dict_item COMMA dict_item\n                  | expression COLON expression\n    """\n    if p.slice[1].type == \'dict_item\':\n        p[0] = p[1] + p[3]')
+M('c15-blank-lines-appended', 'C15', 'C15.R2', RUL, "        if p[3] is not None:\n            p.lexer.ast.lines.append(p[3])", "        p.lexer.ast.lines.append(p[3])")
+M('c15-list-trailing-comma-none', 'C15', 'C15.R3', RUL, "    if len(p) == 3:\n        p[0] = CallOp(name='list', args=[])\n    else:\n        p[0] = CallOp(name='list', args=p[2])",
+  "    if len(p) == 3:\n        p[0] = CallOp(name='list', args=[])\n    elif len(p) == 5:\n        p[0] = CallOp(name='list', args=p[2] + [ValueOp(None)])\n    else:\n        p[0] = CallOp(name='list', args=p[2])")
+M('c15-call-trailing-comma-alt-removed-from-action', 'C15', 'C15.R3', RUL, "    if len(p) >= 5:\n        p[0] = CallOp(p[1], args=p[3])", "    if len(p) == 5:\n        p[0] = CallOp(p[1], args=p[3])")
+
+B('c15-newline-rule-restructured', 'C15', LEX, "    if t.value == ';' or t.lexer.paren_count == 0:\n        return t\n    else:\n        # ignore newlines inside of parens, braces and brackets\n        return None",
+  "    if t.value != ';' and t.lexer.paren_count > 0:\n        return None\n    return t")
+B('c15-ignore-order', 'C15', LEX, 't_ignore = " \\t"', 't_ignore = "\\t "')
+
+# =============================================================================== C20
+M('c20-semicolon-counted', 'C20', 'C20.R1', LEX, "    if t.value != ';':\n        t.lexer.lineno += 1\n", "    t.lexer.lineno += 1\n")
+M('c20-bracket-lines-not-counted', 'C20', 'C20.R1', LEX, "    if t.value != ';':\n        t.lexer.lineno += 1\n", "    if t.value != ';' and t.lexer.paren_count == 0:\n        t.lexer.lineno += 1\n")
+M('c20-lineno-twice', 'C20', 'C20.R1', LEX, "    if t.value != ';':\n        t.lexer.lineno += 1\n", "    if t.value != ';':\n        t.lexer.lineno += 2\n")
+M('c20-lineno-never', 'C20', 'C20.R1', LEX, "    if t.value != ';':\n        t.lexer.lineno += 1\n", "")
+M('c20-reset-to-zero', 'C20', 'C20.R1', SQP, "            self.lex.lineno = 1\n            self.lex.paren_count = 0\n\n            self.lex.ast = None", "            self.lex.lineno = 0\n            self.lex.paren_count = 0\n\n            self.lex.ast = None")
+M('c20-message-lexer-line', 'C20', 'C20.R2', RUL, "at line {p.lineno}')", "at line {p.lexer.lineno}')")
+M('c20-message-token-type', 'C20', 'C20.R2', RUL, "    raise ParserError(f'Syntax error: {p.value} at line {p.lineno}')", "    raise ParserError(f'Syntax error: {p.type} at line {p.lineno}')")
+M('c20-message-no-line', 'C20', 'C20.R2', RUL, "    raise ParserError(f'Syntax error: {p.value} at line {p.lineno}')", "    raise ParserError(f'Syntax error: {p.value}')")
+M('c20-eof-generic-message', 'C20', 'C20.R3', RUL, "        raise ParserError('Syntax error: unexpected end of input')", "        raise ParserError('Syntax error')")
+M('c20-string-counts-lines', 'C20', 'C20.R1', LEX, "    if t.value[0] != 'r':\n", "    t.lexer.lineno += 1\n    if t.value[0] != 'r':\n")
+M('c20-multiline-comment', 'C20', 'C20.R1', LEX, '    r""" \\043.* """', '    r""" \\043[^;]* """')
+
+B('c20-count-newlines-in-value', 'C20', LEX, "    if t.value != ';':\n        t.lexer.lineno += 1\n", "    if t.value == '\\n' or t.value == '\\r\\n':\n        t.lexer.lineno += 1\n")
+B('c20-eof-message-wording', 'C20', RUL, "        raise ParserError('Syntax error: unexpected end of input')", "        raise ParserError('Unexpected end of input')")
